@@ -1,12 +1,12 @@
 ---- MODULE WireCases ----
 (* C20: the hostile inputs as cases: every message type of the protocol (and the stored transaction record, code 0) in two   *)
 (* value classes, every stored record kind of the node, each with every lie (a count / length claiming 65535, 2^32-1, 2^63,   *)
-(* 2^64-1 elements in canonical varint form; for the stored records also the 32-bit values -1 and 2^31-1).  The harness puts   *)
+(* 2^64-1 elements in canonical varint form; for the stored records also the 32-bit values -1, 2^31-1, 2^27 and 2^31; 2^27 and 2^59 are counts whose byte size wraps around).  The harness puts   *)
 (* the lie at every position of the valid encoding (tail kept, and tail cut) and decodes each input in a child process with a *)
 (* limited address space.                                                                                                    *)
 EXTENDS WireStream, Json, SequencesExt
 Records == {"peers", "reorg", "unconfirmed", "txblock"}
 Cases == {[t |-> t, c |-> c, lie |-> lie, rec |-> ""] : t \in Types, c \in {"one", "many"}, lie \in Lies}
-   \cup {[t |-> -1, c |-> "", lie |-> lie, rec |-> rec] : rec \in Records, lie \in Lies \cup {"i32neg", "i32max"}}
+   \cup {[t |-> -1, c |-> "", lie |-> lie, rec |-> rec] : rec \in Records, lie \in Lies \cup {"i32neg", "i32max", "i32p27", "i32p31"}}
 ASSUME LET cs == SetToSeq(Cases) IN JsonSerialize("wire_cases.json", cs)
 ====
